@@ -212,6 +212,11 @@ def render_flo(prog):
                         L.append(ind + "precur")
                         inprecur = True
                     L.append(ind + "  " + flo_act(pa[1]))
+                elif pa[0] == "go" and len(pa) > 3 and pa[3] == "timeout":
+                    # the verb itself: `timeout T` = go <lexically next frame> if elapsed >= T
+                    L.append(ind + "timeout %s" % fl(pa[1][0][2]))
+                elif pa[0] == "go" and len(pa) > 3 and pa[3] == "repeat":
+                    L.append(ind + "repeat %d" % pa[1][0][2])
                 elif pa[0] == "go":
                     L.append(ind + "go %s%s" % (pa[2], flo_needs(pa[1])))
                 elif pa[0] == "aux":
@@ -918,6 +923,18 @@ class Gen(object):
                         ns = self.needs(prog, fm, 0 if r.random() < 0.15 else 1, 2)
                         if self.f("marker") and r.random() < 0.3:
                             ns.insert(r.randint(0, len(ns)), self.marker_need(prog, fm, fr))
+                        nxt = None
+                        names = [x["name"] for x in fm["frames"]]
+                        if names.index(fr["name"]) + 1 < len(names):
+                            nxt = names[names.index(fr["name"]) + 1]
+                        if nxt and self.f("verbs") and r.random() < 0.25:
+                            # the timeout / repeat verbs (target = lexically next frame)
+                            if r.random() < 0.5:
+                                t = r.choice([1, 2, 3, 4]) * prog["tick"] if r.random() < 0.7 else r.choice([0.1, 0.3, 0.25, 0.5])
+                                fr["preacts"].append(["go", [["elapsed", ">=", t]], nxt, "timeout"])
+                            else:
+                                fr["preacts"].append(["go", [["recurred", ">=", r.randint(0, 4)]], nxt, "repeat"])
+                            continue
                         fr["preacts"].append(["go", ns, far])
                     elif x < 0.75 and self.f("condaux") and cand:
                         # (the same framer as plain AND conditional aux of one frame is excluded: see
@@ -1149,4 +1166,15 @@ def scenarios(tick=0.125):
             _fr("f1", enacts=[["rec", 912]], preacts=[["go", [["recurred", ">=", 2]], "f0"]])]},
         {"name": "b1", "sched": "aux", "order": "mid", "period": 0.0, "first": "x", "frames": [
             _fr("x", enacts=[["done", ["me"]]])]}]})))
+    # S15: the timeout and repeat verbs in a scheduled framer, a slave and an auxiliary (target = next frame)
+    out.append(("timeout-and-repeat-verbs", _tagged({"tick": tick, "nvars": 1, "framers": [
+        {"name": "m0", "sched": "active", "order": "front", "period": 0.0, "first": "f0", "frames": [
+            _fr("f0", auxes=["a1"], preacts=[["go", [["elapsed", ">=", 3 * tick]], "f1", "timeout"]]),
+            _fr("f1", enacts=[["rec", 913]], preacts=[["go", [["recurred", ">=", 2]], "f2", "repeat"]]),
+            _fr("f2", enacts=[["rec", 914]], preacts=[["go", [["elapsed", ">=", 0.3]], "f3", "timeout"]]),
+            _fr("f3", enacts=[["rec", 915], ["bid", "stop", ["all"], None]])]},
+        {"name": "a1", "sched": "aux", "order": "mid", "period": 0.0, "first": "x", "frames": [
+            _fr("x", preacts=[["go", [["recurred", ">=", 1]], "y", "repeat"]]),
+            _fr("y", enacts=[["rec", 916]], preacts=[["go", [["elapsed", ">=", tick]], "z", "timeout"]]),
+            _fr("z", enacts=[["rec", 917], ["done", ["me"]]])]}]})))
     return out
